@@ -406,6 +406,12 @@ def run(ctx):
     ctx.guarded('C10-D4', 'obs.py:derived_observable@array_mode', C01.derived_alignment, ctx, ctx.repo.mod('obs'), 'C10-D4')
     ctx.guarded('C10-D5', 'linalg.py@jack', d5_jack, ctx, lin)
     ctx.guarded('C10-D5', 'linalg.py:einsum@importer', d6_einsum_importer, ctx, lin)
+    # elements are visited in index order: np.nditer walks in MEMORY order unless order='C' is given, so a transposed / Fortran-ordered
+    # operand is exported in another order than the reshape to matrix.shape assumes
+    for c_ in walk(lin.tree):
+        if isinstance(c_, ast.Call) and call_name(c_) == 'nditer' and not (kwarg(c_, 'order') is not None and const(kwarg(c_, 'order')) == 'C'):
+            ctx.violated('C10-D5', 'linalg.py:%s#memory-order-iteration' % lin.enclosing_qualname(c_), '`%s` visits the elements in memory order, not in index order: for a transposed view or a '
+                         'Fortran-ordered array the exported elements land at the wrong positions after the reshape' % unparse(c_)[:70], lin.loc(c_))
     from .. import unusedparams, leakedloop
     ctx.rule('C10-D6', 'every accepted option is read (no silently ignored parameter); no loop variable read after its loop')
     for mn_ in ('linalg',):
